@@ -742,8 +742,7 @@ IB__adapt__(PyObject* self, PyObject* obj)
     PyObject *adapter_hooks;
     PyTypeObject *specification_base_class;
     int implements;
-    int i;
-    int l;
+    Py_ssize_t i;
 
     module = _get_module(Py_TYPE(self));
 
@@ -792,9 +791,14 @@ IB__adapt__(PyObject* self, PyObject* obj)
     PyTuple_SET_ITEM(args, 1, obj);
 
     adapter_hooks = _get_adapter_hooks(Py_TYPE(self));
-    l = PyList_GET_SIZE(adapter_hooks);
-    for (i = 0; i < l; i++) {
-        adapter = PyObject_CallObject(PyList_GET_ITEM(adapter_hooks, i), args);
+    /* A hook is arbitrary code and may change ``adapter_hooks`` while we
+     * walk it: look at the current size at every step, and keep the hook
+     * alive while it runs (like iterating the list in Python does). */
+    for (i = 0; i < PyList_GET_SIZE(adapter_hooks); i++) {
+        PyObject* hook = PyList_GET_ITEM(adapter_hooks, i);
+        Py_INCREF(hook);
+        adapter = PyObject_CallObject(hook, args);
+        Py_DECREF(hook);
         if (adapter == NULL || adapter != Py_None) {
             Py_DECREF(args);
             return adapter;
